@@ -21,11 +21,11 @@ CHECKS = {
  "C08": ("E1-seqx", "model_checking",
          "explicit-state enumeration: every reachable store state x every (from,to) pair x continuation x single write-fault position, executed on the real store and compared with the reference model",
          "For each distinct state from the BFS (depth 2 quick / 3 thorough), all (from,to) pairs over 10 relative positions incl. 0 and 2^64-1, with/without a reading OnDelete handler; rejected ranges must leave observation vector and raw datastore image identical; accepted ones must remove raw keys, pending entries and every lookup, keep outside headers, set pointers, and stay deleted across 8 continuations (restart, appends, re-append); every pair again with one more header appended right before the call and still in the write queue (slow datastore); every position of one failing datastore write during the delete is enumerated with the part-way-failure oracle and retry; a handler that rejects every height >= X (X over the first positions of the range) is a second part-way failure, run on the sequential path and, with the parallel path forced through the threshold hook, on the parallel path (several workers fail in one call): rejected heights stay readable, the error is surfaced, a retry from the reported Tail completes.",
-         "Open findings F06/F07 (write-fault paths) are reported as KNOWN-FINDING; fault model = one failing write attempt (put/delete/batch/commit).", "2.2 C08"),
+         "Open finding F06 (write-fault path on a plain datastore) is reported as KNOWN-FINDING (F07 fixed); fault model = one failing write attempt (put/delete/batch/commit).", "2.2 C08"),
  "C14": ("E1-seqx", "fault_enumeration",
          "exhaustive enumeration of handler fault positions (handler i, invocation k, error|panic) over every reachable state x accepted range, sequential and parallel deletion path, on the real store; plus stateless DFS over the thread schedules of concurrent OnDelete registrations (instrumented store package)",
          "Every accepted range in every BFS state, with 1 and 2 registered handlers that read the header through GetByHeight, no fault and every (i,k,error|panic|error wrapping datastore.ErrNotFound); oracle: per removed height each handler exactly once, header readable inside the handler, no datastore delete of its keys in the commit log before the last handler returned, failing height stays readable, error surfaced, tail-side retry re-invokes handlers and completes; plus a handler rejecting every height >= X (several parallel workers failing at different heights): Tail never moves past X, nothing >= X is removed, the retry re-invokes the handler exactly once per remaining height. The parallel path is reached by lowering the threshold through the verif hook. Schedule part (engine E2): every schedule with <= 1 preemption (thorough <= 2) of three concurrent OnDelete registrations; afterwards one header is deleted and every registered handler must have been called exactly once.",
-         "Parallel path runs with real goroutines (48 workers) inside the bubble: its internal interleavings are sampled by the Go scheduler, not enumerated.", "2.2 C14"),
+         "In the explicit-state part the parallel path runs with real goroutines inside the bubble (outcomes forced by the rejecting handler); its interleavings are enumerated separately by the schedule part: DeleteRange(1,6) on c1..c6 through the parallel path (threshold hook 2, three workers under GOMAXPROCS=1, dispatcher and workers controlled) with a handler that reads the header and rejects the heights of R in {{}, {3}, {2,4}} (thorough also {1}, {5}, {1,2}, {4,5}), all schedules with <= 1 preemption, oracle: handler sees the header readable, at most one call per height, removed => handler returned nil once, rejected heights stay readable, error iff a handler failed, Tail <= min R, and the retry after the handler recovered completes calling the handler exactly once for what was still there.", "2.2 C14"),
  "C06": ("E3-crashx", "fault_enumeration",
          "exhaustive crash-point enumeration (every commit-log prefix of every transition of the explored state graph) and exhaustive placement of 1..3 consecutive failing flush writes, on the real store",
          "BFS over {Append slices, DeleteRanges, Restart} (depth 3 quick / 4 thorough) x batch sizes x datastore flavour; (a) in every state a clean Stop/Start must reproduce the whole observation vector; (b) for every transition every prefix of the datastore commit log inside the last operation and the final Stop is reopened by a fresh Store: Start succeeds, Head/Tail resolve, no gap, committed headers retrievable, no dangling pointer, appending the continuation moves Head to the tip; (c) every placement of 1..3 failing batch-creation/commit writes is driven to quiescence in virtual time (retry back-off) and checked with the C04 oracle + restart.",
@@ -44,7 +44,7 @@ CHECKS = {
          "Work measured at the Store interface and as datastore reads of the real store.", "2.4 C10"),
  "C11": ("E1-netx", "model_checking",
          "exhaustive enumeration of payload x verifier-outcome classes on the real topic validator, plus the same classes through real gossipsub (delivery and relay observed)",
-         "12 payload classes x 11 verifier outcomes x {metrics off, on} (264, complete) run on the Subscriber's real validator via the verif export: verdict must equal the reference mapping, verifier never called for undecodable/invalid payloads, ValidatorData is the decoded header, no panic escapes, waiting for a late SetVerifier works; 11 classes are additionally published over a 3-node gossipsub line to observe delivery to Subscriptions and relay.",
+         "13 payload classes x 11 verifier outcomes x {metrics off, on} (286, complete) plus two-message histories on one Subscriber (5 kinds of earlier message x 13 payloads x 8 verifier outcomes x {header type decoding into a fresh value, decoding straight into its receiver}, 1040, same oracle for the second message) run on the Subscriber's real validator via the verif export: verdict must equal the reference mapping, verifier never called for undecodable/invalid payloads, ValidatorData is the decoded header, no panic escapes, waiting for a late SetVerifier works; 11 classes are additionally published over a 3-node gossipsub line to observe delivery to Subscriptions and relay.",
          "Peer-score effects are inferred from the validation result (pubsub semantics trusted).", "2.4 C11"),
  "C13": ("E1-netx", "fault_enumeration",
          "exhaustive enumeration of per-peer answer assignments (20-entry catalogue; single-peer cases also after one successful warm-up request) and arrival orders for 1-3 (thorough 4) trusted peers against the real Exchange.Get/GetByHeight",
@@ -72,16 +72,16 @@ CHECKS = {
          "Open finding F13 reported as KNOWN-FINDING.", "2.3 C16"),
  "C19": ("E1-syncx", "model_checking",
          "explicit-state BFS over histories of Head() calls, clock advances, deliveries and held trusted-head answers on the real Syncer, per-call and per-state oracle; plus stateless DFS over thread schedules of three concurrent Head() callers (instrumented sync package)",
-         "Stores {empty, fresh, stale, expired head (peers fresh / peers expired), stale head with trusted peers lagging behind gossip, the same with the store write of the reported head stalled and then failed or completed (depth +2, small alphabet)}; events Head(), deliver next, advance {3s, 40s, 4000s}, answers of the held trusted-head request {newer, same, one above the verified head, tip, error, soft+header} and of the initialisation request {fresh tip, old, error}; depth 5 quick / 7 thorough. Per completed Head(): no request when recent, exactly one request carrying the subjective head when stale, re-initialisation asks the trusted peers (request without trusted head) and only adopts non-expired heads; per state: at most one head request in flight (single flight), every group of overlapping callers on one stale head causes exactly one request, and results never decrease in completion order. Schedule part: all schedules with <= 1 preemption (thorough <= 2) of three concurrent Head() callers on a stale head: exactly one request carrying the subjective head, results never decrease.",
+         "Stores {empty, fresh, stale, expired head (peers fresh / peers expired), stale head with trusted peers lagging behind gossip, the same with the store write of the reported head stalled and then failed or completed (depth +2, small alphabet)}; events Head(), deliver next, advance {3s, 40s, 4000s}, answers of the held trusted-head request {newer, same, one above the verified head, tip, error, soft+header} and of the initialisation request {fresh tip, old, error}; depth 5 quick / 7 thorough. Per completed Head(): no request when recent, exactly one request carrying the subjective head when stale, re-initialisation asks the trusted peers (request without trusted head) and only adopts heads that are not expired when the trusted peers' answer arrives; per state: at most one head request in flight (single flight), every group of overlapping callers on one stale head causes exactly one request, and results never decrease in completion order. Schedule part: all schedules with <= 1 preemption (thorough <= 2) of three concurrent Head() callers on a stale head: exactly one request carrying the subjective head, results never decrease.",
          "Overlapping Head() callers are explored at event granularity (a second call while the first one's request is held).", "2.3 C19"),
  "C12": ("E2-schedx", "model_checking",
          "stateless DFS over thread schedules with iterative preemption bounding on the real store code (instrumented copy generated from the working tree, controlled scheduler on synctest quiescence)",
-         "Every synchronisation operation of the store package (mutex/rwmutex/once/waitgroup, atomics, channel send/recv/close/select, goroutine start) and every datastore operation is a scheduling point; all schedules with <= 1 preemption (quick; thorough <= 2, one more attempted) are enumerated for: reader vs contiguous append, reader vs gapped-then-filled append, two readers + canceller + writer, missing height below Height(), cancelled reader, reader vs the first batch and the very first header of an empty store, a batch with a gap around the waited height, a descending batch above a gap, gapped-never-filled, (thorough) two readers vs out-of-order writers; batch sizes 1 and 64. Oracle per execution: the reader gets the appended header and never its deadline (a lost wake-up is a reader only released by virtual time), ErrNotFound / cancellation without time passing, no deadlock.",
+         "Every synchronisation operation of the store package (mutex/rwmutex/once/waitgroup, atomics, channel send/recv/close/select, goroutine start) and every datastore operation is a scheduling point; all schedules with <= 1 preemption (quick; thorough <= 2, one more attempted) are enumerated for: reader vs contiguous append, reader vs gapped-then-filled append, two readers + canceller + writer, missing height below Height(), cancelled reader, reader vs the first batch and the very first header of an empty store, a batch with a gap around the waited height, a descending batch above a gap, gapped-never-filled, (thorough) two readers vs out-of-order writers; batch sizes 1 and 64; the contiguous, gapped-batch and gapped-then-filled scenarios again on the context-aware datastore flavour (write batches, snapshot read transactions; taking the snapshot is a scheduling point). Oracle per execution: the reader gets the appended header and never its deadline (a lost wake-up is a reader only released by virtual time), ErrNotFound / cancellation without time passing, no deadlock.",
          "Unsynchronised accesses between two scheduling points are not interleaved; weak memory is not modelled; Go's own choice among select clauses becoming ready simultaneously while a thread is blocked is not owned.", "2.2 C12"),
  "C17": ("E2-schedx", "model_checking",
          "stateless DFS over thread schedules with iterative preemption bounding on the real store code (instrumented copy), per-execution oracle and comparison with the sequential result",
-         "Scenarios: two writers (gap then fill) + reader doing Head/Height/GetByHeight/Get rounds; append+Sync then read from another thread; Sync from another thread after Append returned followed by non-waiting reads; tail-side DeleteRange racing with one and with two separate appends; (thorough) three out-of-order writers + reader; batch sizes 1, 2, 64; all schedules with <= 1 preemption (quick; thorough <= 2, one deeper attempted). Oracle: Head().Height() and Height() never decrease within a reader, Head's header is retrievable by height and by hash, synced headers are readable from any thread, final store equals the sequential execution and is gap-free.",
-         "Same scheduling-point granularity as C12; the randomised real-thread -race pass named in the statement is auxiliary (tools/racepass.sh), not the deciding step.", "2.2 C17"),
+         "Scenarios: two writers (gap then fill) + reader doing Head/Height/GetByHeight/Get rounds; append+Sync then read from another thread; Sync from another thread after Append returned followed by non-waiting reads; tail-side DeleteRange racing with one and with two separate appends; DeleteRange(Tail, Head+1) racing with the append of exactly header Head+1 (T7: the ordinary tail-side outcome is checked against the sequential result; the whole-chain outcome is open finding F24); (thorough) three out-of-order writers + reader; batch sizes 1, 2, 64; all schedules with <= 1 preemption (quick; thorough <= 2, one deeper attempted). Oracle: Head().Height() and Height() never decrease within a reader, Head's header is retrievable by height and by hash, synced headers are readable from any thread, final store equals the sequential execution and is gap-free.",
+         "Open finding F24 (whole-chain deletion racing an append) is reported as KNOWN-FINDING. Same scheduling-point granularity as C12; the randomised real-thread -race pass named in the statement is auxiliary (tools/racepass.sh), not the deciding step.", "2.2 C17"),
 }
 
 NOT_APPLICABLE = {}
